@@ -62,6 +62,86 @@ var Starts = []StartFEN{
 	{"rnbqkbnr/pppp1ppp/8/4p3/4P3/5N2/PPPP1PPP/RNBQKB1R b KQkq - 1 2", "open"},
 	{"r1bq1rk1/ppp2ppp/2np1n2/2b1p3/2B1P3/2NP1N2/PPP2PPP/R1BQ1RK1 w - - 0 7", "mid"},
 	{"2kr3r/ppp2ppp/2n1bn2/2b1p3/4P3/2NP1N2/PPP1BPPP/R1B2RK1 b - - 6 9", "mid"},
+	// kings and short-range pieces on opposite edge files, ranks apart by what a shifted bit mask would
+	// carry across the board edge (pawn, knight and king patterns)
+	{"7k/8/P7/8/8/7p/8/K7 w - - 0 1", "edge"},
+	{"8/k7/8/7P/p7/8/7K/8 w - - 0 1", "edge"},
+	{"7k/8/N7/8/8/n7/8/7K w - - 0 1", "edge"},
+	{"8/8/8/p6k/K6P/8/8/8 w - - 0 1", "edge"},
+	{"k7/7P/8/8/8/8/p7/7K b - - 0 1", "edge"},
+	{"8/8/7k/K6p/P7/8/8/8 b - - 0 1", "edge"},
+}
+
+// Scatter draws a random legal position of both kings and up to six more pieces; half of the time the
+// pieces are kept to the four edge files. No castling rights, no en-passant target.
+func Scatter(choose func(n int) int) string {
+	for {
+		var sq [64]byte
+		edge := choose(2) == 0
+		place := func(c byte) bool {
+			for try := 0; try < 20; try++ {
+				f, r := choose(8), choose(8)
+				if edge {
+					f = []int{0, 1, 6, 7}[choose(4)]
+				}
+				if (c == 'P' || c == 'p') && (r == 0 || r == 7) {
+					continue
+				}
+				if sq[r*8+f] == 0 {
+					sq[r*8+f] = c
+					return true
+				}
+			}
+			return false
+		}
+		place('K')
+		place('k')
+		for n := choose(7); n > 0; n-- {
+			place("PPpNnBbRrQqpP"[choose(13)])
+		}
+		var sb []byte
+		for r := 7; r >= 0; r-- {
+			e := 0
+			for f := 0; f < 8; f++ {
+				if c := sq[r*8+f]; c != 0 {
+					if e > 0 {
+						sb = append(sb, byte('0'+e))
+						e = 0
+					}
+					sb = append(sb, c)
+				} else {
+					e++
+				}
+			}
+			if e > 0 {
+				sb = append(sb, byte('0'+e))
+			}
+			if r > 0 {
+				sb = append(sb, '/')
+			}
+		}
+		f := string(sb) + " " + []string{"w", "b"}[choose(2)] + " - - 0 1"
+		p, h, fm, err := rules.ParseFEN(f)
+		if err != nil || p.FEN(h, fm) != f || p.InCheck(!p.WhiteT) || p.KingSq(true) < 0 || p.KingSq(false) < 0 {
+			continue
+		}
+		// kings must not touch (InCheck sees that as an attack on the side not to move only)
+		if p.InCheck(p.WhiteT) && len(p.LegalMoves()) == 0 {
+			continue
+		}
+		wk, bk := p.KingSq(true), p.KingSq(false)
+		if d := abs(wk/8-bk/8); d <= 1 && abs(wk%8-bk%8) <= 1 {
+			continue
+		}
+		return f
+	}
+}
+
+func abs(x int) int {
+	if x < 0 {
+		return -x
+	}
+	return x
 }
 
 // ValidateStarts checks the curated list with the model only (what /repo makes of them is judged inside the runs); a failure is harness trouble.
